@@ -12,6 +12,7 @@
 (*   ptr      levels of pointers around the base value (0..2)              *)
 (*   nilbase  the slice / map itself is nil (n = 0)                        *)
 (*   nilptr   the outermost pointer is nil (ptr >= 1)                      *)
+(*   meth     the type is a defined type with a String() method            *)
 (* The decision procedure is transcribed branch by branch.  Deviation      *)
 (* switch ZeroShortcut = TRUE models a "nothing there" shortcut            *)
 (* (`!rv.IsValid() || rv.IsZero()` => 0): TLC refutes Agree for it with an *)
@@ -27,7 +28,10 @@ Kinds   == Lengthy \cup {"int", "struct", "untyped_nil"}
 VARIABLE v
 vars == <<v>>
 
-Values == { x \in [kind : Kinds, n : 0..MaxN, fill : {"zero", "nonzero"}, ptr : 0..2, nilbase : BOOLEAN, nilptr : BOOLEAN] :
+\* meth: the value's type is a DEFINED type with a String() method (net.IP, a list of tags that prints itself): it still has
+\* the length of the string / slice / map it is
+Values == { x \in [kind : Kinds, n : 0..MaxN, fill : {"zero", "nonzero"}, ptr : 0..2, nilbase : BOOLEAN, nilptr : BOOLEAN, meth : BOOLEAN] :
+              /\ (x.meth => x.kind \in {"string", "slice", "map"})
               /\ (x.nilbase => x.kind \in {"slice", "map"} /\ x.n = 0)
               /\ (x.nilptr => x.ptr >= 1 /\ x.n = 0 /\ ~x.nilbase)
               /\ (x.kind \in {"int", "struct", "untyped_nil"} => x.n = 0 /\ x.fill = "zero")
